@@ -149,6 +149,10 @@ def instances(rng, q):
         ('purepath', pathlib.PurePosixPath('a/b/c')), ('purepath', pathlib.PurePosixPath('/')), ('purepath', pathlib.PurePosixPath('.')),
         ('purepath', pathlib.PureWindowsPath('C:/x/y')), ('purepath', pathlib.PurePosixPath('/'.join(['segment%d' % i for i in range(15)]))),
         ('purepath', pathlib.PosixPath('rel/path')),
+        # counts that cannot be ordered (most_common() raises; Counter.__repr__ itself falls back to insertion order)
+        ('Counter', collections.Counter({'a': 1, 's': 'x'})), ('Counter', collections.Counter({'a': 1, 'b': None, 'c': 2})),
+        ('Counter', collections.Counter({'a': 1j, 'b': 2})), ('Counter', collections.Counter({'k': [1]})),
+        ('Counter', collections.Counter({'a': 2.5, 'b': 1, 'c': -3})), ('Counter', collections.Counter({'a': [1], 'b': [0, 1]})),
         # members that print with an explanatory comment (functions, classes, pytz zones) passed BY KEYWORD
         ('partial', functools.partial(dict, factory=collections.OrderedDict)), ('partial', functools.partial(sorted, [3, 1], key=len)),
         ('partial', functools.partial(int, base=2, conv=len)),
